@@ -549,7 +549,7 @@ struct Run
 		switch(cfg) {
 		case 0: q.reset(new HomoQ<SchedThreading>()); break;
 		case 1: q.reset(new HomoQ<SchedSpinThreading>()); break;
-		default: q.reset(new HeterQ<SchedThreading>()); heter = true; break;
+		default: q.reset(new HeterQ<SchedThreading>()); heter = true; sched->noPreemptPrefix = "cs.cbl."; break;
 		}
 		std::vector<const std::vector<Op> *> scripts;
 		for(const Op & op : prog.ops) if(op.kind == T_THREAD && scripts.size() < (size_t)kMaxThreads) scripts.push_back(&op.body);
